@@ -405,7 +405,10 @@ def task_repr(p, cse, tier, seed):
                 part.violation(key, f"process_model raises {type(ex).__name__}: {ex} when the inputs are given as {variant} arrays (values {e})", path)
                 part.record(Q("sat", None, 0.0, ""), f"{key}: prediction == specification at a whole-number point (concrete replay)")
                 break
-            f, Pn = spec_float(p, e)
+            try:
+                f, Pn = spec_float(p, e)
+            except (ZeroDivisionError, ValueError, OverflowError):
+                continue  # the specification is undefined at this whole-number point
             bad = [ss[i] for i in range(len(ss)) if not approx_equal(float(got["state"][i]), f[i])]
             badP = [(ss[i], ss[j]) for i in range(len(ss)) for j in range(len(ss)) if not approx_equal(float(got["cov"][i, j]), float(Pn[i, j]), abs_=1e-9)]
             ok = not bad and not badP
@@ -414,6 +417,53 @@ def task_repr(p, cse, tier, seed):
                 path = write_replay(PID, {"key": key, "info": {"program": p.id, "cse": cse, "kind": "repr", "variant": variant}, "inputs": e})
                 part.violation(key, f"process_model with inputs given as {variant} arrays differs from the specification at {e}: state {bad}, covariance {badP[:3]}", path)
                 break
+    return part.d
+
+
+def spec_float_mag(p, e):
+    """Magnitude bounds (see expr.evalmag) of the specification's next state and covariance entries."""
+    ss, sc = p.s_state(), p.s_control()
+    fm = [X.evalmag(p.update[s], e) for s in ss]
+    G = np.array([[X.evalmag(X.diff(p.update[r], c), e) for c in ss] for r in ss]).reshape(len(ss), len(ss))
+    V = np.array([[X.evalmag(X.diff(p.update[r], c), e) for c in sc] for r in ss]).reshape(len(ss), len(sc))
+    pn, _ = pyh.noise_vals_from_env(p, e)
+    M = np.diag([abs(float(pn[c])) for c in sc]) if sc else np.zeros((0, 0))
+    P = np.abs(pyh.float_cov(p.state, e))
+    return fm, G @ P @ G.T + V @ M @ V.T
+
+
+def task_regimes(p, cse, tier, seed):
+    """Concrete replays in value regimes (tiny covariance / noise, tiny states, huge states): see pyh.regime_envs."""
+    part = Part()
+    part.program(p.id)
+    part.fn("python.ExtendedKalmanFilter.process_model")
+    rng = random.Random(seed + 909)
+    ss = p.s_state()
+    n = len(ss)
+    for rnd in range(1 if tier == "quick" else 3):
+        for label, e in pyh.regime_envs(p, rng):
+            key = f"{p.id}/cse={int(cse)}/regime={label}"
+            try:
+                f_, Pn_ = spec_float(p, e)
+                fm, Pm = spec_float_mag(p, e)
+            except (ZeroDivisionError, ValueError, OverflowError):
+                continue  # the specification is undefined at this point
+            if not (np.all(np.isfinite(f_)) and np.all(np.isfinite(Pn_)) and np.all(np.isfinite(fm)) and np.all(np.isfinite(Pm))):
+                continue
+            try:
+                got = float_predict(p, cse, e)
+            except pyh.GateRejected:
+                continue
+            except Exception as ex:
+                path = write_replay(PID, {"key": key, "info": {"program": p.id, "cse": cse, "kind": "regime", "regime": label}, "inputs": e, "exception": f"{type(ex).__name__}: {ex}"})
+                part.violation(key, f"process_model raises {type(ex).__name__}: {ex} on a valid input in the {label} regime ({e})", path)
+                part.record(Q("sat", None, 0.0, ""), f"{key}: prediction == specification relative to operand magnitude (concrete replay)")
+                continue
+            ok = pyh.mag_close(got["state"], f_, fm) and pyh.mag_close(got["cov"], Pn_, Pm)
+            part.record(Q("unsat" if ok else "sat", None, 0.0, ""), f"{key}: prediction == specification relative to operand magnitude (concrete replay)")
+            if not ok:
+                path = write_replay(PID, {"key": key, "info": {"program": p.id, "cse": cse, "kind": "regime", "regime": label}, "inputs": e})
+                part.violation(key, f"process_model differs from f / G P G^T + V M V^T in the {label} regime at {e}: state {np.asarray(got['state']).tolist()} vs {list(f_)}, covariance {np.asarray(got['cov']).tolist()} vs {np.asarray(Pn_).tolist()}", path)
     return part.d
 
 
@@ -436,7 +486,7 @@ def run(tier, seed):
     tasks = [(p, cse, tier, seed) for p in ps for cse in cses]
     if tier == "quick":
         tasks.append((CP.P3(), False, tier, seed))
-    rtasks = [(task_repr, (p, True, tier, seed)) for p in ps if all(len(rs) for rs in [p.state])]
+    rtasks = [(task_repr, (p, True, tier, seed)) for p in ps] + [(task_regimes, (p, True, tier, seed)) for p in ps]
     for d in pmap(_dispatch, [(task, t) for t in tasks] + rtasks):
         rep.merge(d)
     rep.bounds = {"programs": [p.id for p in ps], "inputs": "all real dt, state, control, calibration; all symmetric P (proof) - witnesses restricted to diagonally dominant P; all per-control noise > 0", "outside": "floating-point rounding; validity gates treated as assumptions here (their behaviour is C09)"}
@@ -462,6 +512,20 @@ def replay(path):
         print(probs)
         print("REPRODUCED" if probs else "not reproduced")
         return 1 if probs else 0
+    if info.get("kind") == "regime":
+        try:
+            got = float_predict(p, info["cse"], e)
+        except pyh.GateRejected as ex:
+            print("candidate rejected by validity gate:", ex)
+            return 0
+        except Exception as ex:
+            print(f"REPRODUCED: raises {type(ex).__name__}: {ex}")
+            return 1
+        f_, Pn_ = spec_float(p, e)
+        fm, Pm = spec_float_mag(p, e)
+        ok = pyh.mag_close(got["state"], f_, fm) and pyh.mag_close(got["cov"], Pn_, Pm)
+        print("not reproduced" if ok else "REPRODUCED", got["state"], f_, got["cov"], Pn_)
+        return 0 if ok else 1
     if info.get("kind") == "repr":
         try:
             got = float_predict_variant(p, info["cse"], e, info["variant"])
